@@ -16,7 +16,7 @@ import numpy as np
 from . import common
 from . import c10_translate
 
-THEOREM_FILES = ['NumqiProps/C10.lean', 'NumqiProps/C10Generated.lean']
+THEOREM_FILES = ['NumqiProps/C10.lean', 'NumqiProps/C10Generated.lean', 'NumqiProps/C10F2.lean', 'NumqiProps/C10Compose.lean']
 GREP_FILES = ['NumqiModel/Generated/SeedPrograms.lean']
 LEVEL = 'proof'
 RULE = ('one model program per function/method/class with a seed (or generator) parameter in the nine anchored files, regenerated from the source on '
@@ -57,6 +57,36 @@ EXPECTED_PROGRAMS = [
 # ---------------------------------------------------------------------------------------------------------
 # translation
 # ---------------------------------------------------------------------------------------------------------
+def canonical_name(tr, dotted):
+    """the program name of the function / class reachable under `dotted` (a helper moved to another module of the package and re-exported
+    keeps its pinned name: the pin follows the import table, not the file)"""
+    import importlib
+    parts = dotted.split('.')
+    obj = None
+    for k in range(len(parts), 0, -1):
+        try:
+            obj = importlib.import_module('.'.join(parts[:k]))
+        except Exception:
+            continue
+        try:
+            for q in parts[k:]:
+                obj = getattr(obj, q)
+        except AttributeError:
+            return dotted
+        break
+    else:
+        return dotted
+    try:
+        e = tr.entity_of_obj(obj)
+    except Exception:
+        e = None
+    return e.name if e is not None else dotted
+
+
+def expected_names(tr):
+    return [canonical_name(tr, n) for n in EXPECTED_PROGRAMS]
+
+
 def translate(ctx):
     tr = c10_translate.translate(common.REPO, GEN_PATH)
     _TR['tr'] = tr
@@ -70,8 +100,36 @@ def translate(ctx):
     ctx.extra['calls_on_user_supplied_arguments_assumed_deterministic'] = sorted(tr.contracts)
     ctx.extra['allow_list_entries_used'] = sorted(tr.used_pure)
     ctx.extra['unclassified_calls'] = sorted({f'{a}: {b}' for a, b in tr.unknown})[:60]
-    ctx.extra['expected_programs_missing'] = sorted(set(EXPECTED_PROGRAMS) - {e.name for e in listed})
-    ctx.extra['programs_not_expected'] = sorted({e.name for e in listed} - set(EXPECTED_PROGRAMS))
+    exp = expected_names(tr)
+    ctx.extra['expected_programs_missing'] = sorted(set(exp) - {e.name for e in listed})
+    ctx.extra['programs_not_expected'] = sorted({e.name for e in listed} - set(exp))
+    ctx.extra['expected_programs_renamed'] = {a: b for a, b in zip(EXPECTED_PROGRAMS, exp) if a != b}
+    # the generated file is committed: on the unchanged tree it must be the translation of /repo itself and contain no `.unknownCall`
+    # (a file left behind by a run against a patched scratch tree would)
+    try:
+        txt = open(GEN_PATH).read()
+    except OSError as e:
+        txt = ''
+        ctx.note(f'generated file not readable: {e}')
+    n_unknown = txt.count('.unknownCall')
+    ctx.extra['generated_file_unknownCall_count'] = n_unknown
+    ctx.extra['generated_file_source_tree'] = common.REPO
+    clean = os.path.realpath(common.REPO) == os.path.realpath('/repo')
+    if clean:
+        # consistency of the committed artefact: what is on disk is exactly the translation of /repo made in this run, and a closed
+        # translation contains no `.unknownCall` (a non-closed translation of /repo itself is reported through `seedClosed_all`)
+        assert (n_unknown == 0) == (not any('unknownCall' in repr(e.stmts) for e in listed)), 'generated file is not the translation of /repo made in this run'
+    elif not _TR.get('restore_registered'):
+        # a run against a patched scratch tree must not leave its translation behind in the (committed) generated file
+        import atexit
+        def restore():
+            try:
+                with common.build_lock():
+                    c10_translate.translate('/repo', GEN_PATH)
+            except Exception:
+                pass
+        atexit.register(restore)
+        _TR['restore_registered'] = True
     return tr
 
 
@@ -603,10 +661,14 @@ def correspondence(ctx):
         by.setdefault(r['name'], []).append(r)
     ops, impl = [], []
     ops.append('C10 count'); impl.append(str(len(EXPECTED_PROGRAMS)))
-    names = list(EXPECTED_PROGRAMS) + [e.name for e in listed if e.name not in EXPECTED_PROGRAMS]
+    exp = expected_names(tr)
+    names = exp + [e.name for e in listed if e.name not in exp]
+    by_canon = {}
+    for k, v in by.items():
+        by_canon.setdefault(canonical_name(tr, k), []).extend(v)
     for name in names:
         ops.append(f'C10 tclosed {name}')
-        rs = by.get(name, [])
+        rs = by_canon.get(name, [])
         if not rs:
             impl.append('no-recipe')
             continue
@@ -617,6 +679,9 @@ def correspondence(ctx):
         # the model has one `normalise`; both Python normalisers (numpy and random.Random) must behave like it
         vals = {nb['numpy ' + kind], nb['python ' + kind]}
         ops.append(f'C10 norm {kind}'); impl.append(vals.pop() if len(vals) == 1 else 'normalisers-differ:' + '/'.join(sorted(vals)))
+    # the Python mirror `closed_py` (used for the evidence and for OBLIGED_EXTRAS) against the model's `closed`, program by program
+    for e in listed:
+        ops.append(f'C10 closed {e.name}'); impl.append('1' if c10_translate.closed_py(len(listed), [], e.stmts) else '0')
     model = common.run_model(ops)
     for i, (op, a) in enumerate(zip(ops, impl)):
         if a == 'no-recipe':
@@ -642,10 +707,110 @@ def correspondence(ctx):
     ctx.extra['recipes'] = len({(r['name'], r['label']) for r in res})
     ctx.extra['exhaustive'] = False
     validity_tie(ctx)
+    f2_tie(ctx)
     try:
         extras(ctx)
     except Exception as e:      # evidence only: never affects the verdict
         ctx.note(f'extra entry points: not evaluated ({type(e).__name__}: {e})')
+
+
+# ---------------------------------------------------------------------------------------------------------
+# tie of NumqiProps/C10F2.lean (validity of rand_SpF2 / rand_Clifford_group / rand_pauli): the models `SpF2.randSpF2`,
+# `Clifford.randCliffordGroup`, `Clifford.randPauliPost` live in the C09 / C07 drivers; the same scripted raw draws go into the real
+# functions (also tied by bin/check C07 / C09; duplicated here so that a C10-only run audits and ties C10F2.lean)
+# ---------------------------------------------------------------------------------------------------------
+class ScriptedRandom(random.Random):
+    """a `random.Random` (accepted as `seed` by `get_random_rng`) whose `randint` returns prescribed values"""
+    def __init__(self, values):
+        super().__init__(0)
+        self.values = list(values)
+        self.calls = []
+    def randint(self, a, b):
+        v = self.values.pop(0)
+        self.calls.append((a, b))
+        assert a <= v <= b, f'scripted value {v} outside requested range [{a},{b}]'
+        return v
+
+
+class ScriptedGenerator(np.random.Generator):
+    """a numpy Generator (accepted as `seed` by `get_numpy_rng`) whose `integers` returns the prescribed raw bits"""
+    def __init__(self, bits):
+        super().__init__(np.random.PCG64(0))
+        self._bits = np.asarray(bits, dtype=np.uint8)
+    def integers(self, low, high=None, size=None, dtype=np.int64, endpoint=False):
+        n = int(np.prod(size)) if size is not None else 1
+        assert (low, high) == (0, 2) and n == self._bits.size
+        return self._bits.reshape(size).astype(dtype)
+
+
+def _bitstr(a):
+    return ''.join(str(int(x)) for x in np.asarray(a).reshape(-1))
+
+
+def _bitmat(M):
+    return ';'.join(_bitstr(r) for r in np.asarray(M))
+
+
+def _sp_bases(n):
+    out = []
+    for x in range(1, n + 1):
+        out += [4 ** x - 1, 4 ** x // 2]
+    return out
+
+
+def f2_tie(ctx):
+    import numqi
+    R = numqi.random
+    rng = random.Random(ctx.seed * 7919 + 11)
+    q = ctx.quick()
+    ops7, impl7, ops9, impl9 = [], [], [], []
+    def g(f):
+        try:
+            return f()
+        except Exception as e:
+            return f'error:{type(e).__name__}'
+    # rand_Clifford_group: two scripted sub-seeds -> raw phase bits (numpy) and raw tuple (random.Random)
+    for i in range(24 if q else 240):
+        n = 1 + i % 6
+        s1, s2 = rng.randrange(2 ** 32), rng.randrange(2 ** 32)
+        bits = np.random.default_rng(s1).integers(0, 2, size=(2 * n,), dtype=np.uint8)
+        rr = random.Random(s2)
+        tup = [rr.randint(0, b - 1) for b in _sp_bases(n)]
+        ops7.append(f'C07 randcliff {n} {_bitstr(bits)} {";".join(map(str, tup))} {s1} {s2}')
+        def f(n=n, s1=s1, s2=s2):
+            r, S = R.rand_Clifford_group(n, seed=ScriptedRandom([s1, s2]))
+            return f'{_bitstr(r)} {_bitmat(S)}'
+        impl7.append(g(f))
+    # rand_pauli: every raw draw for n = 1, 2 and every request; sampled above
+    raws = [(n, ''.join(t)) for n in ((1, 2) if not q else (1,)) for t in itertools.product('01', repeat=2 * n + 2)]
+    raws += [(n, ''.join(rng.choice('01') for _ in range(2 * n + 2))) for n in [rng.randint(2, 8) for _ in range(30 if q else 400)]]
+    raws += [(n, ''.join(rng.choice('01') for _ in range(2 * n + 2))) for n in (31, 32, 33)]
+    for n, raw in raws:
+        for req, want in (('N', None), ('H', True), ('A', False)):
+            ops7.append(f'C07 rpauli {n} {req} {raw}')
+            impl7.append(g(lambda n=n, raw=raw, want=want: _bitstr(R.rand_pauli(n, is_hermitian=want, seed=ScriptedGenerator([int(c) for c in raw])).F2)))
+    # rand_SpF2: the matrix is from_int_tuple of exactly the drawn tuple; the draws are requested from [0, base-1]; the three return kinds agree
+    for i in range(24 if q else 240):
+        n = 1 + i % 8
+        bs = _sp_bases(n)
+        t = [rng.choice([0, b - 1]) for b in bs] if i % 5 == 0 else [rng.randrange(b) for b in bs]
+        ops9.append(f'C09 randsp {n} {";".join(map(str, t))}')
+        def f(n=n, t=t, bs=bs):
+            rr = ScriptedRandom(t)
+            M = R.rand_SpF2(n, seed=rr)
+            t2 = R.rand_SpF2(n, return_kind='int_tuple', seed=ScriptedRandom(t))
+            t3, M3 = R.rand_SpF2(n, return_kind='int_tuple-matrix', seed=ScriptedRandom(t))
+            if rr.calls != [(0, b - 1) for b in bs] or rr.values or tuple(t2) != tuple(t) or tuple(t3) != tuple(t) or not np.array_equal(M3, M):
+                return f'draws requested {rr.calls}, tuples returned {t2} {t3}'
+            return _bitmat(M)
+        impl9.append(g(f))
+    for pid, ops, impl in (('C07', ops7, impl7), ('C09', ops9, impl9)):
+        try:
+            model = common.run_model(ops, pid=pid)
+        except Exception as e:
+            ctx.disagree(f'{pid} driver (model constants of NumqiProps/C10F2.lean)', f'driver not available: {type(e).__name__}: {e}'[:300], f'{len(ops)} ops not compared')
+            continue
+        common.compare(ctx, ops, impl, model, key=lambda op: 'f2:' + op.split(' ')[1])
 
 
 # ---------------------------------------------------------------------------------------------------------
@@ -676,13 +841,15 @@ class Capture:
             orig = getattr(owner, name)
             def w(*a, **k):
                 r = orig(*a, **k)
-                cap.calls.append((name, [np.array(x, copy=True) for x in a if isinstance(x, np.ndarray)], r))
+                # copies: several generators normalise the returned array in place (`ret /= norm`)
+                rc = tuple(np.array(x, copy=True) for x in r) if isinstance(r, (tuple, list)) else (np.array(r, copy=True) if isinstance(r, np.ndarray) else r)
+                cap.calls.append((name, [np.array(x, copy=True) for x in a if isinstance(x, np.ndarray)], rc))
                 return r
             self.saved.append((owner, name, orig))
             setattr(owner, name, w)
         for nm in ('qr', 'eigh', 'inv'):
             wrap(np.linalg, nm)
-        for nm in ('_random_complex', 'rand_haar_unitary', 'rand_special_orthogonal_matrix'):
+        for nm in ('_random_complex', 'rand_haar_unitary', 'rand_special_orthogonal_matrix', 'rand_density_matrix', 'rand_haar_state', 'to_special_orthogonal_exp'):
             wrap(I, nm)
         return self
     def __exit__(self, *exc):
@@ -824,6 +991,91 @@ def validity_tie(ctx):
                     ops.append(f'C10 nz f2 {int(nz)} {int(no)} {draws}')
                     want.append(';'.join(str(int(x)) for x in np.asarray(out).reshape(-1)) + f' {len(g.log)}'); tols.append(None)
     guarded('rand_F2', blk_f2)
+    # ---- round 6: generators composed of the above (kron / outer product / permutation-sum / placement steps on the captured inputs)
+    for s in seeds:
+        def blk_bip(s=s):
+            for dA, dB, k in ((2, 2, 1), (2, 3, 2), (3, 2, 2), (3, None, 3), (2, 2, None), (1, 3, 1)):
+                dBv = dA if dB is None else dB
+                with Capture() as c:
+                    psi = R.rand_bipartite_state(dA, dB, k=k, seed=RecGen(s))
+                if k is None:
+                    add(f'vec {dA * dBv} {cbits(c.outs("_random_complex")[-1])}', psi)
+                else:
+                    (Q0, _), (Q1, _) = c.outs('qr')[0], c.outs('qr')[1]
+                    add(f'bip {dA} {dBv} {k} {cbits(Q0[:, :k])} {cbits(Q1[:, :k])} {cbits(c.outs("_random_complex")[2])}', psi)
+                rho = R.rand_bipartite_state(dA, dB, k=k, seed=RecGen(s), return_dm=True)
+                add(f'pdm {dA * dBv} {cbits(psi)}', rho, 1e-15)
+        guarded('rand_bipartite_state', blk_bip)
+        def blk_sep(s=s):
+            for dA, dB, k in ((2, 2, 1), (2, 3, 2), (3, None, 3)):
+                dBv = dA if dB is None else dB
+                g = RecGen(s)
+                with Capture() as c:
+                    out = R.rand_separable_dm(dA, dB, k=k, seed=g)
+                p = next(v for kind, v in g.log if kind == 'uniform')
+                dms = c.outs('rand_density_matrix')
+                add(f'sep {dA} {dBv} {k} {cbits(p)} {cbits(np.stack(dms[0::2]))} {cbits(np.stack(dms[1::2]))}', out)
+                g = RecGen(s)
+                with Capture() as c:
+                    out = R.rand_separable_dm(dA, dB, k=k, seed=g, pure_term=True)
+                p = next(v for kind, v in g.log if kind == 'uniform')
+                vs = c.outs('rand_haar_state')
+                add(f'sepp {dA} {dBv} {k} {cbits(p)} {cbits(np.stack(vs[0::2]))} {cbits(np.stack(vs[1::2]))}', out)
+        guarded('rand_separable_dm', blk_sep)
+        def blk_onb(s=s):
+            for no, d, nq in ((2, 2, 1), (3, 2, 1), (2, 3, 1), (2, 2, 2), (3, 2, 3), (2, 3, 2)):
+                for ns in (None, 2):
+                    for wi in (False, True):
+                        with Capture() as c:
+                            out = R.rand_orthonormal_matrix_basis(no, d, num_qudit=nq, num_sample=ns, with_I=wi, seed=RecGen(s))
+                        us = c.outs('to_special_orthogonal_exp')
+                        outs = [out] if ns is None else list(out)
+                        assert len(us) == len(outs)
+                        for u, o in zip(us, outs):
+                            add(f'onb {no} {d} {nq} {int(wi)} {cbits(u)}', o)
+        guarded('rand_orthonormal_matrix_basis', blk_onb)
+        def blk_chan(s=s):
+            for n, m in ((2, 1), (2, 3), (3, 4), (1, 2)):
+                g = RecGen(s)
+                out = R.rand_channel_matrix_space(n, m, seed=g)
+                zs = [g.log[2 * t][1] + 1j * g.log[2 * t + 1][1] for t in range(m - 1)]
+                add(f'chan {n} {m} {cbits(np.stack(zs)) if zs else "-"}', out, 0.0)
+            for d in (1, 3):
+                for tc in (True, False):
+                    g = RecGen(s)
+                    out = R.rand_hermitian_matrix(d, eig=None, tag_complex=tc, seed=g)
+                    z = (g.log[0][1] + 1j * g.log[1][1]) if tc else g.log[0][1]
+                    add(f'hermsym {d} {cbits(z)}', out, 0.0)
+        guarded('rand_channel_matrix_space', blk_chan)
+        def blk_qcms(s=s):
+            for d in (2, 3, 4):
+                N1 = d * (d - 1) // 2
+                for nh in (1, 2, d * d):
+                    with Capture() as c:
+                        out = R.rand_quantum_channel_matrix_subspace(d, nh, seed=RecGen(s))
+                    if nh > 1:
+                        so = c.outs('rand_special_orthogonal_matrix')[0]
+                        add(f'qcms herm {d} {nh - 1} {cbits(so[:nh - 1])}', out[1:])
+                    add(f'chan {d} 1 -', out[:1], 0.0)
+                for nsym, nanti in ((1, 0), (2, 1), (N1 + d, N1), (3, 0), (1, N1)):
+                    if nsym > N1 + d or nanti > N1 or (nanti > 0 and N1 < 2):
+                        continue        # dim_in=2 with an antisymmetric part: the clean tree asks for SO(1) and asserts (observation in design_notes)
+                    with Capture() as c:
+                        out = R.rand_quantum_channel_matrix_subspace(d, (nsym, nanti), seed=RecGen(s))
+                    sos = c.outs('rand_special_orthogonal_matrix')
+                    add(f'chan {d} 1 -', out[:1], 0.0)
+                    if nsym > 1:
+                        add(f'qcms sym {d} {nsym - 1} {cbits(sos[0][:nsym - 1])}', out[1:nsym])
+                    if nanti > 0:
+                        add(f'qcms anti {d} {nanti} {cbits(sos[-1][:nanti])}', out[nsym:])
+        guarded('rand_quantum_channel_matrix_subspace', blk_qcms)
+        def blk_abk(s=s):
+            for dA, dB, kx in ((2, 2, 1), (2, 2, 2), (3, 2, 2), (2, 3, 2), (2, 2, 3), (1, 2, 3)):
+                g = RecGen(s)
+                out = R.rand_ABk_density_matrix(dA, dB, kx, seed=g)
+                G = g.log[0][1] + 1j * g.log[1][1]
+                add(f'abk {dA} {dB} {kx} {cbits(G)}', out)
+        guarded('rand_ABk_density_matrix', blk_abk)
     model = common.run_model(ops)
     worst = 0.0
     for op, w, tol, m in zip(ops, want, tols, model):
@@ -1422,7 +1674,7 @@ def search(ctx, hints):
     ctx.note('failing-input search over sizes for: ' + ', '.join(sorted(flagged)))
     cands = [(n, l, f, None) for (n, l, f) in size_sweeps()] + list(recipes(False))
     for name, label, f, prep in cands:
-        if name not in flagged:
+        if name not in flagged and canonical_name(tr, name) not in flagged:
             continue
         key = 'repro:' + name.split('numqi.')[-1]
         if any(x['key'].startswith(key) for x in ctx.failures):
